@@ -347,6 +347,9 @@ func compareResult(op model.Op, want, got model.Result, drvName string) *failure
 			if !model.ItemEqual(want.CondItem, got.CondItem) {
 				return newFail("condition-failure item differs", "%s: want %s got %s", drvName, model.CanonItem(want.CondItem), model.CanonItem(got.CondItem))
 			}
+		} else if len(got.CondItem) > 0 {
+			// (the drivers ask for the item only on v2 UpdateItem with ReturnOnCondFail)
+			return newFail("failure carries an item that was not requested", "%s %s: %s", drvName, op.Kind, model.CanonItem(got.CondItem))
 		}
 		return nil
 	}
@@ -390,6 +393,9 @@ func compareResult(op model.Op, want, got model.Result, drvName string) *failure
 	case "BatchWrite":
 		if !sameStrings(batchCanon(want.Unprocessed), batchCanon(got.Unprocessed)) {
 			return newFail("unprocessed items differ", "%s: want %v got %v", drvName, batchCanon(want.Unprocessed), batchCanon(got.Unprocessed))
+		}
+		if want.Metrics != got.Metrics {
+			return newFail("configured item-collection metrics differ", "%s BatchWrite: want %q got %q", drvName, want.Metrics, got.Metrics)
 		}
 	case "BatchGet":
 		if !sameStrings(batchCanon(want.Responses), batchCanon(got.Responses)) {
